@@ -80,4 +80,50 @@ theorem C17_rows_bijective (C R : Nat) (p : List Nat) (hp : p.Perm (List.range R
     rw [hget r hr, hget r' hr'] at he'
     exact hfacts.2.1 r r' (by omega) (by omega) he'
 
+/-- the first clause of the property, on the result buffer: the chosen column of the result is the old column permuted by `p`,
+    hence ordered whenever `p` orders the keys (stable variant: `p = stablePerm …`, C16_stable_perm; unstable: the sort contract) -/
+theorem C17_result_col_sorted (v : VW) (buf : List α) (h : v.Inv buf.length) (p : List Nat)
+    (hp : p.Perm (List.range v.numRows)) (c : Nat) (hc : c < v.numCols) (le : α → α → Bool)
+    (hsorted : (p.filterMap (((List.range v.numRows).filterMap fun r => buf[v.pos c r]?)[·]?)).Pairwise (fun a b => le a b = true)) :
+    ((List.range v.numRows).filterMap fun r => (gather buf (v.mapCells (sortRowsG p)))[v.pos c r]?).Pairwise (fun a b => le a b = true) ∧
+    ((List.range v.numRows).filterMap fun r => (gather buf (v.mapCells (sortRowsG p)))[v.pos c r]?) =
+      p.filterMap (((List.range v.numRows).filterMap fun r => buf[v.pos c r]?)[·]?) := by
+  have hlen : p.length = v.numRows := by rw [hp.length_eq, List.length_range]
+  have hg : ∀ c r, c < v.numCols → r < v.numRows →
+      (sortRowsG p (c, r)).1 < v.numCols ∧ (sortRowsG p (c, r)).2 < v.numRows := fun c r hc' hr => by
+    have := (C17_rows_bijective v.numCols v.numRows p hp).1 c r hc' hr
+    exact ⟨by rw [this.2]; exact hc', this.1⟩
+  obtain ⟨hglen, _, hcell⟩ := C04_frame_perm v buf h (sortRowsG p) hg
+  -- the keys, cell by cell
+  have hkeysome : ∀ (b : List α), b.length = buf.length →
+      ∀ x ∈ List.range v.numRows, (b[v.pos c x]?).isSome := by
+    intro b hb x hx
+    rw [List.getElem?_eq_getElem (by rw [hb]; exact VW.pos_lt h hc (List.mem_range.1 hx))]
+    rfl
+  have hkey : ∀ (b : List α), b.length = buf.length → ∀ j,
+      ((List.range v.numRows).filterMap fun r => b[v.pos c r]?)[j]? = if j < v.numRows then b[v.pos c j]? else none := by
+    intro b hb j
+    rw [filterMap_getElem?_of_isSome _ _ (hkeysome b hb)]
+    by_cases hj : j < v.numRows
+    · rw [if_pos hj, List.getElem?_range hj, Option.bind_some]
+    · rw [if_neg hj, List.getElem?_eq_none (by simp; omega)]; rfl
+  have hsome : ∀ x ∈ p, ((((List.range v.numRows).filterMap fun r => buf[v.pos c r]?))[x]?).isSome := by
+    intro x hx
+    have hx' : x < v.numRows := List.mem_range.1 (hp.mem_iff.1 hx)
+    rw [hkey buf rfl, if_pos hx']
+    exact hkeysome buf rfl x (List.mem_range.2 hx')
+  have heq : ((List.range v.numRows).filterMap fun r => (gather buf (v.mapCells (sortRowsG p)))[v.pos c r]?) =
+      p.filterMap (((List.range v.numRows).filterMap fun r => buf[v.pos c r]?)[·]?) := by
+    apply List.ext_getElem?
+    intro k
+    rw [hkey _ hglen, filterMap_getElem?_of_isSome _ _ hsome]
+    by_cases hk : k < v.numRows
+    · have hpk : p.getD k k < v.numRows := (hg c k hc hk).2
+      have hpk' : p[k]? = some (p.getD k k) := by
+        rw [List.getD_eq_getElem?_getD, List.getElem?_eq_getElem (by omega)]; rfl
+      rw [if_pos hk, hcell c k hc hk, hpk', Option.bind_some, hkey buf rfl, if_pos hpk]
+      rfl
+    · rw [if_neg hk, List.getElem?_eq_none (by omega)]; rfl
+  exact ⟨by rw [heq]; exact hsorted, heq⟩
+
 end Toodee
